@@ -3,7 +3,7 @@
    every direct-base relationship of G appears in at least one registration record of R, and every base a record lists
    is the class itself or a direct or indirect base in G — listed completely, only directly, redundantly, several times,
    or spread over several records, in any order. *)
-From Y2 Require Import Model.Registry Model.Compile Spec.Dispatch Proofs.Interfaces Proofs.SpecProofs Proofs.ResolveProofs Proofs.CorollaryProofs Proofs.PresentCompose.
+From Y2 Require Import Model.Registry Model.Compile Model.UseClasses Spec.Dispatch Proofs.Interfaces Proofs.SpecProofs Proofs.ResolveProofs Proofs.CorollaryProofs Proofs.PresentCompose Proofs.UseClassesProofs.
 From Coq Require Import Relations.
 
 (* the relation the specification uses is the graph's *)
@@ -55,6 +55,19 @@ Theorem C08_no_shared_cell : forall R stale C,
     (c_slot C mi p = c_slot C mi' p' -> mi = mi' /\ p = p').
 Proof. exact cells_disjoint. Qed.
 Print Assumptions C08_no_shared_cell.
+
+(* the registration front end itself: what use_classes<...> / register_classes(...) statements register (one record per
+   listed class, listing every class of the same statement that is a base of it per std::is_base_of) is a presentation of
+   the program's class graph as soon as every direct base of a listed class is listed in the same statement and every
+   class is listed somewhere — so all the theorems above apply to it *)
+Theorem C08_use_classes_presentation : forall G is_base_of is_abstract,
+  (forall b d, is_base_of b d = true <-> clos_refl_trans N (Gedge G) b d) ->
+  forall stmts,
+  (forall cs b d, In cs stmts -> In d cs -> In (b, d) G -> In b cs) ->
+  (forall b d, In (b, d) G -> exists cs, In cs stmts /\ In d cs) ->
+  presentation_of G (mk_reg (program_records is_base_of is_abstract stmts) [] []).
+Proof. exact use_classes_presentation. Qed.
+Print Assumptions C08_use_classes_presentation.
 
 (* non-vacuity: probe P2's lattice registered with direct bases only is a presentation of its graph, and compiles *)
 Example C08_example :
